@@ -716,6 +716,29 @@ def u_wrapper_toplevel(root):
                             a[n_] = VNone()
                 return a
             eng.verify(WRAP, "hist_fit", None, init, contract=c, tag=f"[gauss_approximation={ga},model={'given' if model_given else 'default'}]")
+    # k2Fit (legacy front end): every one of its arguments that describes the fit reaches xy_fit under the right keyword - in particular the reference of the relative uncertainties
+    from . import c03 as _c03
+    K2 = {"p0": "p0", "dp0": "dp0", "x_error": "sx", "y_error": "sy", "x_error_rel": "srelx", "y_error_rel": "srely", "x_error_cor": "xabscor", "y_error_cor": "yabscor", "x_error_cor_rel": "xrelcor", "y_error_cor_rel": "yrelcor",
+          "errors_rel_to_model": "ref_to_model", "limits": "limits", "constraints": "constraints"}
+
+    def lib_xy_fit(e, st, a, kw, n):
+        push(st, ("xy_fit", tuple(name_of(x) for x in a), {k_: name_of(v) for k_, v in kw.items()}))
+        return VOpaque("results")
+    eng.lib["xy_fit"] = lib_xy_fit
+    eng.consts = dict(getattr(eng, "consts", {}) or {})
+    eng.consts["_fit_history"] = VTuple([VDict({"fit": _c03.Part("last_fit")})])
+    c = Contract(WRAP, "k2Fit")
+
+    def post_k2(vw):
+        calls = [t for t in top(vw.post) if t[0] == "xy_fit"]
+        if vw.flow == "raise" or len(calls) != 1:
+            return [("exactly one xy_fit call, no exception", z3.BoolVal(False))]
+        _, a_, kw_ = calls[0]
+        return [("model function, x and y are handed on in this order", z3.BoolVal(tuple(a_) == ("func", "x", "y"))),
+                ("EVERY argument describing the fit reaches xy_fit under its keyword: the four kinds of uncertainties per axis, the reference of relative uncertainties (errors_rel_to_model = ref_to_model), start values, limits, constraints",
+                 z3.BoolVal(all(kw_.get(k_) == v_ for k_, v_ in K2.items())))]
+    c.ensures.append(post_k2)
+    eng.verify(WRAP, "k2Fit", None, lambda e, st, me_: dict({n_: K(n_) for n_ in ["func", "x", "y"] + sorted(set(K2.values()))}, plot=VBool(z3.BoolVal(False)), quiet=VBool(z3.BoolVal(True)), asym_parerrs=VBool(z3.BoolVal(True))), contract=c)
     for w, cls, ctor_args in (("unbinned_fit", "UnbinnedFit", ("data", "model_function")), ("custom_fit", "CustomFit", ("cost_function",))):
         c = Contract(WRAP, w)
         c.ensures.append(lambda vw, cls=cls, ctor_args=ctor_args: [("the fit is constructed from the arguments and run through the generic pipeline", z3.BoolVal(top(vw.post) == [(cls, ctor_args, {}), ("run", (cls,) + tuple(common), {})]))])
